@@ -84,7 +84,7 @@ func (s *tmplState) field(x tval, name string) tval {
 			break
 		}
 		// methods on the pointer type first
-		if fn := e.P.Prog.LookupMethod(t, nil, name); fn != nil && token.IsExported(name) {
+		if fn := lookupMethodSafe(e, t, name); fn != nil && token.IsExported(name) {
 			r := e.callAt(fn, []Value{v}, nil, s.fr, nil)
 			return tval{r, fn.Signature.Results().At(0).Type()}
 		}
@@ -105,7 +105,7 @@ func (s *tmplState) field(x tval, name string) tval {
 			}
 		}
 	}
-	if fn := e.P.Prog.LookupMethod(t, nil, name); fn != nil {
+	if fn := lookupMethodSafe(e, t, name); fn != nil {
 		if fn.Signature.Params().Len() != 0 || fn.Signature.Results().Len() < 1 {
 			e.unsupported("template: method %s with arguments", name)
 		}
@@ -442,4 +442,13 @@ func init() {
 		}
 		return e.newSlice(rows, nil)
 	}
+}
+
+// lookupMethodSafe is Program.LookupMethod without the panic for a missing method.
+func lookupMethodSafe(e *Exec, t types.Type, name string) *ssa.Function {
+	sel := e.P.Prog.MethodSets.MethodSet(t).Lookup(nil, name)
+	if sel == nil {
+		return nil
+	}
+	return e.P.Prog.MethodValue(sel)
 }
